@@ -43,6 +43,69 @@ class RecObserver(ProgressObserver):
         return [(k, s, sc, x) for _, _, k, s, sc, x in self.trace]
 
 
+def make_null_based_recorder(name):
+    """A recording observer whose class derives from the bundled NullProgressObserver (overriding everything): still an observer that
+    must receive every notification."""
+    from uberjob.progress._null_progress_observer import NullProgressObserver
+
+    class NullBasedRec(RecObserver, NullProgressObserver):
+        pass
+
+    return NullBasedRec(name)
+
+
+class FlakyNotify(RecObserver):
+    """records, then raises in the j-th `completed` notification"""
+
+    def __init__(self, name, j):
+        super().__init__(name)
+        self.j = j
+        self.n = 0
+
+    def increment_completed(self, *, section, scope):
+        RecObserver.increment_completed(self, section=section, scope=scope)
+        self.n += 1
+        if self.n == self.j:
+            raise MemberFault(f"{self.name}.increment_completed failed")
+
+
+def run_with_flaky_completed(seed):
+    """composite (recorder, flaky): the flaky member raises inside a `completed` notification. Whatever the run does then, the healthy
+    recorder in front of it must never see a call closed twice (running -> completed -> failed)."""
+    import collections
+    import random
+
+    import uberjob
+    import uberjob.progress as up
+
+    rng = random.Random(seed)
+    rec0 = RecObserver("rec")
+    flaky = FlakyNotify("flaky", rng.randint(1, 3))
+    plan = uberjob.Plan()
+    prev = None
+    for i in range(rng.randint(2, 5)):
+        with plan.scope(rng.choice(["s", 1, ("t", 2)])):
+            prev = plan.call((lambda *a: 1), *([prev] if prev is not None and rng.random() < 0.6 else []))
+    exc = None
+    try:
+        uberjob.run(plan, output=prev, progress=(rec0.progress(), flaky.progress()), max_workers=rng.choice([1, 2]), max_errors=rng.choice([0, None]))
+    except BaseException as e:
+        exc = e
+    bal = collections.Counter()
+    for _, tid, kind, section, scope, extra in rec0.trace:
+        if kind == "running":
+            bal[(section, scope)] += 1
+        elif kind in ("completed", "failed"):
+            bal[(section, scope)] -= 1
+            if bal[(section, scope)] < 0:
+                return (f"the recorder received {kind!r} for {(section, scope)} without an open 'running' (a call was closed twice: "
+                        f"{[t[2] for t in rec0.trace if t[4] == scope]})"), {"raised": repr(exc)[:80]}
+    kinds = [t[2] for t in rec0.trace]
+    if kinds.count("exit") != 1 or kinds[-1] != "exit":
+        return f"the recorder was exited {kinds.count('exit')} times / received {kinds[-1]!r} last", {"raised": repr(exc)[:80]}
+    return None, {"raised": repr(exc)[:80]}
+
+
 class MemberFault(Exception):
     pass
 
